@@ -771,7 +771,775 @@ Proof.
     apply Hfirst. reflexivity.
 Qed.
 
+(* ====================================================================================
+   findLiteralAfterLoopLeftToRight
+   ==================================================================================== *)
+Notation fd_char i := (nth (Z.to_nat i) text 0).
+
+(* the literal published with the loop stands at k (as indexOfLiteralAfterLoop looks for it) *)
+Definition fd_lal_literal_at (l : fdlal) (k : Z) : Prop :=
+  match lal_string l with
+  | _ :: _ => fd_prefix_match (fd_leading_eqc (lal_string_ic l) (lal_string l)) (lal_string l)
+                              (skipn (Z.to_nat k) text) = true
+  | [] => match lal_chars l with
+          | _ :: _ => k < n /\ zmem (fd_char k) (lal_chars l) = true
+          | [] => k < n /\ fd_char k = lal_char l
+          end
+  end.
+
+(* LiteralAfterLoop: a successful attempt at q runs over loop-set runes up to some k where the literal stands *)
+Definition fd_lal_fact (l : fdlal) (loop_set : Z) : Prop :=
+  forall q, 0 <= q <= n -> fd_succeeds q ->
+    exists k, q <= k <= n /\ (forall i, q <= i < k -> set_in loop_set (fd_char i) = true) /\ fd_lal_literal_at l k.
+
+Lemma fd_lal_literal_lt : forall l k, 0 <= k -> fd_lal_literal_at l k -> k < n.
+Proof.
+  intros l k Hk H. unfold fd_lal_literal_at in H.
+  destruct (lal_string l) as [|c str] eqn:Es.
+  - destruct (lal_chars l); lia.
+  - pose proof (fd_prefix_match_skipn_bound _ (c :: str) k ltac:(discriminate) Hk H) as Hb.
+    rewrite fd_zlen_cons in Hb. pose proof (fd_zlen_nonneg str). lia.
+Qed.
+
+Lemma fd_index_of_lal_ok : forall l s, 0 <= s <= n ->
+  exists r, fd_index_of_literal_after_loop text lower l s = Ok r /\
+    ((r = -1 /\ forall k, s <= k <= n -> fd_lal_literal_at l k -> False) \/
+     (s <= r < n /\ forall k, s <= k < r -> fd_lal_literal_at l k -> False)).
+Proof.
+  intros l s Hs. unfold fd_index_of_literal_after_loop, fd_lal_literal_at.
+  rewrite (fd_slice_from_ok s Hs). cbn [bind].
+  set (sl := skipn (Z.to_nat s) text).
+  assert (Hlen : zlen sl = n - s) by (apply fd_zlen_skipn; exact Hs).
+  destruct (lal_string l) as [|c0 str0] eqn:Estr.
+  - (* a rune or one of a few runes *)
+    assert (Hgen : forall test : Z -> bool,
+              exists r, (if 0 <=? fd_index_where test sl then Ok (s + fd_index_where test sl) else Ok (-1)) = Ok r /\
+                ((r = -1 /\ forall k, s <= k <= n -> (k < n /\ test (fd_char k) = true) -> False) \/
+                 (s <= r < n /\ forall k, s <= k < r -> (k < n /\ test (fd_char k) = true) -> False))).
+    { intros test. pose proof (fd_index_where_range test sl) as Hr.
+      destruct (0 <=? fd_index_where test sl) eqn:E.
+      - exists (s + fd_index_where test sl). split; [reflexivity|]. right. split; [lia|].
+        intros k Hk [_ Ht]. destruct (fd_index_where_some test sl ltac:(lia)) as [_ Hb].
+        specialize (Hb (k - s) ltac:(lia)). unfold sl in Hb. rewrite fd_nth_skipn_Z in Hb by lia.
+        replace (s + (k - s)) with k in Hb by lia. congruence.
+      - exists (-1). split; [reflexivity|]. left. split; [reflexivity|].
+        intros k Hk [Hkn Ht]. pose proof (fd_index_where_none test sl ltac:(lia) (k - s) ltac:(lia)) as Hb.
+        unfold sl in Hb. rewrite fd_nth_skipn_Z in Hb by lia.
+        replace (s + (k - s)) with k in Hb by lia. congruence. }
+    destruct (lal_chars l) as [|c1 cs] eqn:Ecs.
+    + unfold fd_index_of_any1. destruct (Hgen (fun c => c =? lal_char l)) as (r & Hr & Hcases).
+      exists r. split; [exact Hr|]. destruct Hcases as [[H1 H2]|[H1 H2]]; [left|right]; (split; [exact H1|]);
+        intros k Hk [Hkn He]; apply (H2 k Hk); (split; [exact Hkn | lia]).
+    + unfold fd_index_of_any. destruct (Hgen (fun c => zmem c (c1 :: cs))) as (r & Hr & Hcases).
+      exists r. split; [exact Hr|]. exact Hcases.
+  - (* a string *)
+    rewrite <- Estr. assert (Hne : lal_string l <> []) by (rewrite Estr; discriminate).
+    rewrite (fd_leading_index (lal_string_ic l) (lal_string l) sl Hne). cbn [bind].
+    set (eqc := fd_leading_eqc (lal_string_ic l) (lal_string l)).
+    pose proof (fd_index_of_gen_range eqc (lal_string l) sl) as Hr.
+    destruct (0 <=? fd_index_of_gen eqc (lal_string l) sl) eqn:E.
+    + exists (s + fd_index_of_gen eqc (lal_string l) sl). split; [reflexivity|]. right. split; [lia|].
+      intros k Hk Hm. destruct (fd_index_of_gen_some eqc (lal_string l) sl ltac:(lia)) as [_ Hb].
+      specialize (Hb (k - s) ltac:(lia)). unfold sl in Hb. rewrite fd_skipn_skipn_Z in Hb by lia.
+      replace (s + (k - s)) with k in Hb by lia. congruence.
+    + exists (-1). split; [reflexivity|]. left. split; [reflexivity|].
+      intros k Hk Hm.
+      pose proof (fd_prefix_match_skipn_bound _ (lal_string l) k Hne ltac:(lia) Hm) as Hbd.
+      assert (0 < zlen (lal_string l)) by (rewrite Estr, fd_zlen_cons; pose proof (fd_zlen_nonneg str0); lia).
+      pose proof (fd_index_of_gen_none eqc (lal_string l) sl ltac:(lia) (k - s) ltac:(lia)) as Hb.
+      unfold sl in Hb. rewrite fd_skipn_skipn_Z in Hb by lia.
+      replace (s + (k - s)) with k in Hb by lia. congruence.
+Qed.
+
+Lemma fd_walk_back_spec : forall (f : Z -> bool) low k start, low <= start -> (Z.to_nat (start - low) <= k)%nat ->
+  let w := fd_walk_back text k f low start in
+  low <= w <= start /\ (forall i, w <= i < start -> f (fd_char i) = true) /\ (w = low \/ f (fd_char (w - 1)) = false).
+Proof.
+  intros f low. induction k as [|k IH]; intros start Hls Hk; cbn [fd_walk_back].
+  - assert (start = low) by lia. subst. cbv zeta. split; [lia|]. split; [intros i Hi; lia | left; reflexivity].
+  - destruct ((low <? start) && f (fd_char (start - 1))) eqn:E.
+    + apply andb_prop in E. destruct E as [E1 E2].
+      destruct (IH (start - 1) ltac:(lia) ltac:(lia)) as (H1 & H2 & H3). cbv zeta in *.
+      split; [lia|]. split; [|exact H3].
+      intros i Hi. assert (Hc : i < start - 1 \/ i = start - 1) by lia.
+      destruct Hc as [Hc|Hc]; [apply H2; lia | subst i; exact E2].
+    + cbv zeta. split; [lia|]. split; [intros i Hi; lia|].
+      apply andb_false_iff in E. destruct E as [E|E]; [left; lia | right; exact E].
+Qed.
+
+Lemma fd_lal_loop_ok : forall l ls, fd_lal_fact l ls ->
+  forall fuel p s, 0 <= p <= s -> p <= n -> (Z.to_nat (n - s) < fuel)%nat ->
+  (s = p \/ forall q, p <= q <= n -> fd_succeeds q -> False) ->
+  fd_ok_at p (fd_lal_loop text set_in lower minreq fuel p l ls s).
+Proof.
+  intros l ls HF. induction fuel as [|f IH]; intros p s Hp Hpn Hfuel Hinv; [lia|].
+  cbn [fd_lal_loop]. unfold fd_far, fd_n.
+  (* every successful q >= p has its literal at some k >= q, with loop-set runes in between *)
+  destruct (negb (s <? n)) eqn:Es.
+  { apply fd_ok_far; [lia|]. intros x Hx Hsx. destruct Hinv as [->|Hinv]; [|exact (Hinv x Hx Hsx)].
+    destruct (HF x ltac:(lia) Hsx) as (k & Hk & _ & Hlit). pose proof (fd_lal_literal_lt l k ltac:(lia) Hlit). lia. }
+  destruct (fd_index_of_lal_ok l s ltac:(lia)) as (r & Hr & Hcases). rewrite Hr. cbn [bind].
+  destruct Hcases as [[-> Hnone]|[Hrr Hbefore]].
+  { cbn. apply fd_ok_far; [lia|]. intros x Hx Hsx. destruct Hinv as [->|Hinv]; [|exact (Hinv x Hx Hsx)].
+    destruct (HF x ltac:(lia) Hsx) as (k & Hk & _ & Hlit). exact (Hnone k ltac:(lia) Hlit). }
+  destruct (r <? 0) eqn:Er; [lia|]. cbv zeta.
+  destruct (fd_walk_back_spec (set_in ls) p (Z.to_nat (r - p)) r ltac:(lia) ltac:(lia)) as (Hw1 & Hw2 & Hw3).
+  cbv zeta in Hw1, Hw2, Hw3.
+  set (start := fd_walk_back text (Z.to_nat (r - p)) (set_in ls) p r) in *.
+  assert (Hskip : forall x, p <= x -> x < start -> fd_succeeds x -> False).
+  { intros x Hx1 Hx2 Hsx. destruct Hinv as [->|Hinv]; [|exact (Hinv x ltac:(lia) Hsx)].
+    destruct (HF x ltac:(lia) Hsx) as (k & Hk & Hrun & Hlit).
+    assert (Hkr : r <= k).
+    { assert (Hc : k < r \/ r <= k) by lia. destruct Hc as [Hc|Hc]; [|exact Hc].
+      exfalso. exact (Hbefore k ltac:(lia) Hlit). }
+    destruct Hw3 as [Hw3|Hw3]; [lia|].
+    rewrite Hrun in Hw3 by lia. discriminate. }
+  destruct (fd_has_required_length_at text minreq start) eqn:Ereq.
+  { apply fd_ok_found; [lia | exact Hskip]. }
+  apply IH; try lia. right.
+  intros q Hq Hsq.
+  assert (Hc : q < start \/ start <= q) by lia. destruct Hc as [Hc|Hc]; [exact (Hskip q ltac:(lia) Hc Hsq)|].
+  pose proof (fd_minlen_latest minreq q Hmin ltac:(lia) Hsq). rewrite fd_has_req_unfold in Ereq. lia.
+Qed.
+
+Theorem fd_literal_after_loop_sound : forall l ls, lal_loop_set l = Some ls -> fd_lal_fact l ls ->
+  fd_sound (fun p => fd_find_literal_after_loop text set_in lower minreq p (Some l)).
+Proof.
+  intros l ls Hls HF p Hp. unfold fd_find_literal_after_loop. rewrite Hls.
+  apply fd_lal_loop_ok; try assumption; try lia; try (unfold fd_fuel, zlen in *; lia).
+Qed.
+
+(* ====================================================================================
+   findRequiredLandmarkChainLeftToRight (as repaired by 573b074, 563c473, 5218d84)
+   ==================================================================================== *)
+
+(* effective upper bound of a set alternative (runner.go:1850-1853) *)
+Definition fd_alt_emax (a : fdalt) : Z := if la_max a <=? 0 then la_min a else la_max a.
+
+(* alternative a stands at c with its core ending at e: required whitespace just before, the literal or
+   between MinRepeat and MaxRepeat set runes, required whitespace just after *)
+Definition fd_alt_match_at (a : fdalt) (c e : Z) : Prop :=
+  (la_req_before a = true ->
+     0 < c /\ exists ws, la_lead_ws a = Some ws /\ set_in ws (fd_char (c - 1)) = true) /\
+  ((la_literal a <> [] /\ e = c + zlen (la_literal a) /\
+    fd_prefix_match fd_eq_exact (la_literal a) (skipn (Z.to_nat c) text) = true)
+   \/ (la_literal a = [] /\ exists sid, la_set a = Some sid /\ 0 < la_min a /\
+       la_min a <= e - c <= fd_alt_emax a /\ e <= n /\
+       forall i, c <= i < e -> set_in sid (fd_char i) = true)) /\
+  (la_req_after a = true ->
+     e < n /\ exists ws, la_trail_ws a = Some ws /\ set_in ws (fd_char e) = true).
+
+(* the remaining landmarks stand, in order, at or after [from] *)
+Fixpoint fd_chain_rest (lms : list (list fdalt)) (from : Z) : Prop :=
+  match lms with
+  | [] => True
+  | alts :: rest => exists a c e, In a alts /\ from <= c /\ 0 <= c /\ fd_alt_match_at a c e /\ fd_chain_rest rest e
+  end.
+
+(* RequiredLandmarkChain: a successful attempt at q runs over loop-set runes up to s, then over leading
+   whitespace of an alternative a of the first landmark up to c, where a stands; the other landmarks follow *)
+Definition fd_chain_fact (loop_set : Z) (first_alts : list fdalt) (rest : list (list fdalt)) : Prop :=
+  forall q, 0 <= q <= n -> fd_succeeds q ->
+    exists a s c e, In a first_alts /\ q <= s <= c /\
+      (forall i, q <= i < s -> set_in loop_set (fd_char i) = true) /\
+      (forall i, s <= i < c -> fd_opt_set_in set_in (la_lead_ws a) (fd_char i) = true) /\
+      fd_alt_match_at a c e /\ fd_chain_rest rest e.
+
+(* published data: repeat counts are not negative *)
+Definition fd_alts_wf (alts : list fdalt) : Prop := forall a, In a alts -> 0 <= la_min a.
+
+Lemma fd_alt_match_lt : forall a c e, 0 <= c -> fd_alt_match_at a c e -> c < e <= n.
+Proof.
+  intros a c e Hc (_ & Hcore & _). destruct Hcore as [(Hl & -> & Hm)|(Hl & sid & _ & Hmn & Hb & Hen & _)].
+  - pose proof (fd_prefix_match_skipn_bound _ _ c Hl Hc Hm).
+    assert (0 < zlen (la_literal a)).
+    { destruct (la_literal a); [contradiction|]. rewrite fd_zlen_cons. pose proof (fd_zlen_nonneg l). lia. }
+    lia.
+  - lia.
+Qed.
+
+Lemma fd_run_fwd_spec : forall (f : Z -> bool) start end_at maxrep k e0,
+  start <= e0 -> (Z.to_nat (end_at - e0) <= k)%nat ->
+  let r := fd_run_fwd text k f start end_at maxrep e0 in
+  e0 <= r /\ (forall i, e0 <= i < r -> f (fd_char i) = true) /\
+  (end_at <= r \/ maxrep <= r - start \/ f (fd_char r) = false).
+Proof.
+  intros f start end_at maxrep. induction k as [|k IH]; intros e0 Hs Hk; cbn [fd_run_fwd]; cbv zeta.
+  - split; [lia|]. split; [intros i Hi; lia | left; lia].
+  - destruct ((e0 <? end_at) && (e0 - start <? maxrep) && f (fd_char e0)) eqn:E.
+    + apply andb_prop in E. destruct E as [E E3]. apply andb_prop in E. destruct E as [E1 E2].
+      destruct (IH (e0 + 1) ltac:(lia) ltac:(lia)) as (H1 & H2 & H3). cbv zeta in H1, H2, H3.
+      split; [lia|]. split; [|exact H3].
+      intros i Hi. assert (Hc : i = e0 \/ e0 + 1 <= i) by lia. destruct Hc as [->|Hc]; [exact E3 | apply H2; lia].
+    + split; [lia|]. split; [intros i Hi; lia|].
+      apply andb_false_iff in E. destruct E as [E|E]; [|right; right; exact E].
+      apply andb_false_iff in E. destruct E as [E|E]; [left; lia | right; left; lia].
+Qed.
+
+Lemma fd_ws_after_true : forall (f : Z -> bool) e_max end_at k e0,
+  (Z.to_nat (e_max - e0 + 1) <= k)%nat ->
+  (exists x, e0 <= x <= e_max /\ x < end_at /\ f (fd_char x) = true) ->
+  fd_ws_after text k f e_max end_at e0 = true.
+Proof.
+  intros f e_max end_at. induction k as [|k IH]; intros e0 Hk (x & Hx1 & Hx2 & Hx3); cbn [fd_ws_after]; [lia|].
+  destruct ((e0 <=? e_max) && (e0 <? end_at)) eqn:E; [|lia].
+  destruct (f (fd_char e0)) eqn:Ef; [reflexivity|].
+  apply IH; [lia|]. exists x. assert (x <> e0) by (intros ->; congruence). split; [lia|]. split; assumption.
+Qed.
+
+(* requiredLandmarkAlternativeMatch never faults inside the text and reports the position it was asked about *)
+Lemma fd_alt_before_total : forall a c, 0 <= c <= n -> exists b, fd_alt_before_bad text set_in c a = Ok b.
+Proof.
+  intros a c Hc. unfold fd_alt_before_bad.
+  destruct (la_req_before a); [|eauto]. destruct (c =? 0) eqn:E; [eauto|].
+  destruct (la_lead_ws a); [|eauto]. rewrite (fd_rune_at_ok (c - 1)) by lia. cbn [bind]. eauto.
+Qed.
+
+Lemma fd_alt_core_total : forall a c, 0 <= c <= n -> exists o, fd_alt_core text set_in c n a = Ok o.
+Proof.
+  intros a c Hc. unfold fd_alt_core.
+  destruct (la_literal a) as [|l0 lit] eqn:El.
+  - destruct (la_set a); [|eauto]. destruct (0 <? la_min a); [|eauto]. cbv zeta.
+    destruct (_ <? la_min a); eauto.
+  - destruct (n <? c + zlen (l0 :: lit)); [eauto|].
+    rewrite (fd_slice_from_ok c Hc). cbn [bind].
+    rewrite (fd_starts_with_ok _ (l0 :: lit)) by discriminate. cbn [bind].
+    destruct (fd_prefix_match _ _ _); eauto.
+Qed.
+
+Lemma fd_alt_match_total : forall a c, 0 <= c <= n ->
+  exists r, fd_landmark_alt_match text set_in c n a = Ok r /\ forall m, r = Some m -> lm_core_start m = c.
+Proof.
+  intros a c Hc. unfold fd_landmark_alt_match.
+  destruct (fd_alt_before_total a c Hc) as [b ->]. cbn [bind].
+  destruct b; [exists None; split; [reflexivity | discriminate]|].
+  destruct (fd_alt_core_total a c Hc) as [o ->]. cbn [bind].
+  destruct o as [e|]; [|exists None; split; [reflexivity | discriminate]].
+  destruct (fd_alt_after_bad text set_in c n e a).
+  - exists None. split; [reflexivity | discriminate].
+  - cbv zeta. eexists. split; [reflexivity|]. intros m Hm. inversion Hm. reflexivity.
+Qed.
+
+(* ... and accepts an alternative that stands there *)
+Lemma fd_alt_match_complete : forall a c e, 0 <= c -> fd_alt_match_at a c e ->
+  exists m, fd_landmark_alt_match text set_in c n a = Ok (Some m) /\ lm_core_start m = c.
+Proof.
+  intros a c e Hc Hm. pose proof (fd_alt_match_lt a c e Hc Hm) as Hlt.
+  destruct Hm as (Hbef & Hcore & Haft). unfold fd_landmark_alt_match.
+  (* whitespace before *)
+  assert (Hb : fd_alt_before_bad text set_in c a = Ok false).
+  { unfold fd_alt_before_bad.
+    destruct (la_req_before a); [|reflexivity]. destruct (Hbef eq_refl) as (H0 & ws & Hws & Hin).
+    destruct (c =? 0) eqn:E; [lia|]. rewrite Hws. rewrite (fd_rune_at_ok (c - 1)) by lia. cbn [bind].
+    rewrite Hin. reflexivity. }
+  rewrite Hb. cbn [bind].
+  (* the core, and the whitespace after it *)
+  assert (Hc2 : exists r, fd_alt_core text set_in c n a = Ok (Some r) /\ fd_alt_after_bad text set_in c n r a = false).
+  { unfold fd_alt_core, fd_alt_after_bad.
+    destruct Hcore as [(Hl & He & Hpm)|(Hl & sid & Hsid & Hmn & Hb2 & Hen & Hall)].
+    - (* literal *)
+      destruct (la_literal a) as [|l0 lit] eqn:El; [contradiction|].
+      destruct (n <? c + zlen (l0 :: lit)) eqn:E1; [lia|].
+      rewrite (fd_slice_from_ok c ltac:(lia)). cbn [bind].
+      rewrite (fd_starts_with_ok _ (l0 :: lit)) by discriminate. cbn [bind]. rewrite Hpm.
+      eexists. split; [reflexivity|]. cbv zeta.
+      destruct (la_req_after a); [|reflexivity]. destruct (Haft eq_refl) as (H0 & ws & Hws & Hin). rewrite Hws.
+      rewrite fd_ws_after_true; [reflexivity | lia|]. exists e. subst e. repeat split; try lia; try exact Hin.
+    - (* set *)
+      rewrite Hl, Hsid. destruct (0 <? la_min a) eqn:E0; [|lia]. cbv zeta.
+      fold (fd_alt_emax a).
+      destruct (fd_run_fwd_spec (set_in sid) c n (fd_alt_emax a) (Z.to_nat (n - c)) c ltac:(lia) ltac:(lia)) as (R1 & R2 & R3).
+      cbv zeta in R1, R2, R3. set (r := fd_run_fwd text (Z.to_nat (n - c)) (set_in sid) c n (fd_alt_emax a) c) in *.
+      assert (Her : e <= r).
+      { assert (Hc2 : e <= r \/ r < e) by lia. destruct Hc2 as [Hc2|Hc2]; [exact Hc2|].
+        destruct R3 as [R3|[R3|R3]]; [lia | lia |]. rewrite Hall in R3 by lia. discriminate. }
+      destruct (r - c <? la_min a) eqn:E1; [lia|].
+      eexists. split; [reflexivity|].
+      destruct (la_req_after a); [|reflexivity]. destruct (Haft eq_refl) as (H0 & ws & Hws & Hin). rewrite Hws.
+      rewrite fd_ws_after_true; [reflexivity | lia|]. exists e. repeat split; try lia; try exact Hin. }
+  destruct Hc2 as (r & Hr1 & Hr2). rewrite Hr1. cbn [bind]. rewrite Hr2. cbv zeta.
+  eexists. split; reflexivity.
+Qed.
+
+Lemma fd_first_alt_total : forall alts i, 0 <= i <= n ->
+  exists r, fd_first_alt_at text set_in i n alts = Ok r /\ forall m, r = Some m -> lm_core_start m = i.
+Proof.
+  induction alts as [|a alts IH]; intros i Hi; cbn [fd_first_alt_at].
+  - exists None. split; [reflexivity | discriminate].
+  - destruct (fd_alt_match_total a i Hi) as (r & Hr & Hcs). rewrite Hr. cbn [bind].
+    destruct r as [m|]; [exists (Some m); split; [reflexivity | exact Hcs] | apply IH; exact Hi].
+Qed.
+
+Lemma fd_first_alt_complete : forall alts a i e, 0 <= i -> In a alts -> fd_alt_match_at a i e ->
+  exists m, fd_first_alt_at text set_in i n alts = Ok (Some m) /\ lm_core_start m = i.
+Proof.
+  induction alts as [|a0 alts IH]; intros a i e Hi Hin Hm; [destruct Hin|].
+  pose proof (fd_alt_match_lt a i e Hi Hm) as Hlt.
+  cbn [fd_first_alt_at]. destruct (fd_alt_match_total a0 i ltac:(lia)) as (r & Hr & Hcs). rewrite Hr. cbn [bind].
+  destruct r as [m|]; [exists m; split; [reflexivity | apply Hcs; reflexivity]|].
+  destruct Hin as [->|Hin]; [|exact (IH a i e Hi Hin Hm)].
+  destruct (fd_alt_match_complete a i e Hi Hm) as (m & Hm' & _). congruence.
+Qed.
+
+(* findNextRequiredLandmarkRunes: total; a result lies in [i, n); a landmark standing at c >= i is found at or before c *)
+Lemma fd_find_next_total : forall alts k i, 0 <= i ->
+  exists r, fd_find_next_landmark text set_in k i n alts = Ok r /\
+            forall m, r = Some m -> i <= lm_core_start m < n.
+Proof.
+  intros alts. induction k as [|k IH]; intros i Hi; cbn [fd_find_next_landmark].
+  - exists None. split; [reflexivity | discriminate].
+  - destruct (negb (i <? n)) eqn:E; [exists None; split; [reflexivity | discriminate]|].
+    destruct (fd_first_alt_total alts i ltac:(lia)) as (r & Hr & Hcs). rewrite Hr. cbn [bind].
+    destruct r as [m|].
+    + exists (Some m). split; [reflexivity|]. intros m' Hm'. inversion Hm'; subst m'. rewrite (Hcs m eq_refl). lia.
+    + destruct (IH (i + 1) ltac:(lia)) as (r & Hr' & Hb). exists r. split; [exact Hr'|].
+      intros m Hm. specialize (Hb m Hm). lia.
+Qed.
+
+Lemma fd_find_next_complete : forall alts a c e, In a alts -> 0 <= c -> fd_alt_match_at a c e ->
+  forall k i, 0 <= i <= c -> (Z.to_nat (n - i) <= k)%nat ->
+  exists m, fd_find_next_landmark text set_in k i n alts = Ok (Some m) /\ i <= lm_core_start m <= c.
+Proof.
+  intros alts a c e Hin Hc Hm. pose proof (fd_alt_match_lt a c e Hc Hm) as Hlt.
+  induction k as [|k IH]; intros i Hi Hk; [lia|]. cbn [fd_find_next_landmark].
+  destruct (negb (i <? n)) eqn:E; [lia|].
+  destruct (fd_first_alt_total alts i ltac:(lia)) as (r & Hr & Hcs). rewrite Hr. cbn [bind].
+  destruct r as [m|].
+  - exists m. split; [reflexivity|]. rewrite (Hcs m eq_refl). lia.
+  - assert (Hc2 : i = c \/ i < c) by lia. destruct Hc2 as [->|Hc2].
+    + destruct (fd_first_alt_complete alts a c e Hc Hin Hm) as (m & Hm' & _). congruence.
+    + destruct (IH (i + 1) ltac:(lia) ltac:(lia)) as (m & Hm' & Hb). exists m. split; [exact Hm' | lia].
+Qed.
+
+(* requiredLandmarkMinWidth is at most the width of any alternative that stands somewhere *)
+Lemma fd_min_width_acc_le : forall alts width, fd_alts_wf alts -> -1 <= width ->
+  let R := fd_min_width_acc alts width in
+  -1 <= R /\ (0 <= width -> 0 <= R <= width) /\
+  (forall a, In a alts -> 0 <= R <= (match la_literal a with [] => la_min a | _ => zlen (la_literal a) end)).
+Proof.
+  induction alts as [|a0 alts IH]; intros width Hwf Hw; cbn [fd_min_width_acc]; cbv zeta.
+  - split; [lia|]. split; [lia | intros a []].
+  - set (w := match la_literal a0 with [] => la_min a0 | _ :: _ => zlen (la_literal a0) end).
+    assert (Hw0 : 0 <= w).
+    { unfold w. destruct (la_literal a0) eqn:El; [apply Hwf; left; reflexivity | apply fd_zlen_nonneg]. }
+    assert (Hwf' : fd_alts_wf alts) by (intros a Ha; apply Hwf; right; exact Ha).
+    set (nw := if (width <? 0) || (w <? width) then w else width).
+    assert (Hnw : 0 <= nw <= w /\ (0 <= width -> nw <= width)) by (unfold nw; destruct ((width <? 0) || (w <? width)) eqn:E; lia).
+    destruct (IH nw Hwf' ltac:(lia)) as (I1 & I2 & I3). cbv zeta in I1, I2, I3.
+    split; [lia|]. split; [intros H0; specialize (I2 ltac:(lia)); lia|].
+    intros a [<-|Ha]; [specialize (I2 ltac:(lia)); fold w; lia | exact (I3 a Ha)].
+Qed.
+
+Lemma fd_min_width_le : forall alts a c e, fd_alts_wf alts -> In a alts -> 0 <= c -> fd_alt_match_at a c e ->
+  0 <= fd_landmark_min_width alts <= e - c.
+Proof.
+  intros alts a c e Hwf Hin Hc Hm. unfold fd_landmark_min_width. cbv zeta.
+  destruct (fd_min_width_acc_le alts (-1) Hwf ltac:(lia)) as (_ & _ & H3). cbv zeta in H3. specialize (H3 a Hin).
+  destruct (fd_min_width_acc alts (-1) <? 0) eqn:E; [lia|].
+  destruct Hm as (_ & Hcore & _). destruct Hcore as [(Hl & -> & _)|(Hl & sid & _ & _ & Hb & _)].
+  - destruct (la_literal a); [contradiction | lia].
+  - rewrite Hl in H3. lia.
+Qed.
+
+Fixpoint fd_chain_wf (lms : list (list fdalt)) : Prop :=
+  match lms with [] => True | alts :: rest => fd_alts_wf alts /\ fd_chain_wf rest end.
+
+Lemma fd_rest_landmarks_total : forall rest ns, 0 <= ns -> exists b, fd_rest_landmarks text set_in ns rest = Ok b.
+Proof.
+  induction rest as [|alts rest IH]; intros ns Hns; cbn [fd_rest_landmarks]; [eauto|].
+  unfold fd_next_landmark, fd_n.
+  destruct (fd_find_next_total alts (Z.to_nat (n - ns)) ns Hns) as (r & Hr & Hb). rewrite Hr. cbn [bind].
+  destruct r as [m|]; [|eauto]. specialize (Hb m eq_refl).
+  apply IH. unfold fd_landmark_min_width. cbv zeta. destruct (_ <? 0) eqn:E; lia.
+Qed.
+
+Lemma fd_rest_landmarks_complete : forall rest from ns, fd_chain_wf rest -> fd_chain_rest rest from ->
+  0 <= ns <= from -> fd_rest_landmarks text set_in ns rest = Ok true.
+Proof.
+  induction rest as [|alts rest IH]; intros from ns Hwf Hch Hns; cbn [fd_rest_landmarks]; [reflexivity|].
+  destruct Hwf as [Hwf1 Hwf2]. destruct Hch as (a & c & e & Hin & Hfc & Hc0 & Hm & Hrest).
+  unfold fd_next_landmark, fd_n.
+  destruct (fd_find_next_complete alts a c e Hin Hc0 Hm (Z.to_nat (n - ns)) ns ltac:(lia) ltac:(lia)) as (m & Hr & Hb).
+  rewrite Hr. cbn [bind].
+  pose proof (fd_min_width_le alts a c e Hwf1 Hin Hc0 Hm).
+  apply (IH e); [exact Hwf2 | exact Hrest | lia].
+Qed.
+
+Lemma fd_chain_loop_ok : forall ls first_alts rest, fd_alts_wf first_alts -> fd_chain_wf rest ->
+  fd_chain_fact ls first_alts rest ->
+  forall fuel p s, 0 <= p <= s -> p <= n -> (Z.to_nat (n + 1 - s) < fuel)%nat ->
+  (s = p \/ forall q, p <= q <= n -> fd_succeeds q -> False) ->
+  fd_ok_at p (fd_chain_loop text set_in minreq fuel p ls first_alts rest s).
+Proof.
+  intros ls first_alts rest Hwf1 Hwf2 HF. induction fuel as [|f IH]; intros p s Hp Hpn Hfuel Hinv; [lia|].
+  cbn [fd_chain_loop]. unfold fd_far, fd_n.
+  pose proof (fd_latest_le_n minreq) as Hlat.
+  destruct (negb (s <=? fd_latest_possible_start text minreq)) eqn:Es.
+  { apply fd_ok_far; [lia|]. intros x Hx Hsx. destruct Hinv as [->|Hinv]; [|exact (Hinv x Hx Hsx)].
+    pose proof (fd_minlen_latest minreq x Hmin ltac:(lia) Hsx). lia. }
+  unfold fd_next_landmark at 1. unfold fd_n.
+  destruct (fd_find_next_total first_alts (Z.to_nat (n - s)) s ltac:(lia)) as (r & Hr & Hb). rewrite Hr. cbn [bind].
+  destruct r as [first|].
+  2:{ apply fd_ok_far; [lia|]. intros x Hx Hsx. destruct Hinv as [->|Hinv]; [|exact (Hinv x Hx Hsx)].
+      destruct (HF x ltac:(lia) Hsx) as (a & s1 & c & e & Hin & Hsc & _ & _ & Hm & _).
+      destruct (fd_find_next_complete first_alts a c e Hin ltac:(lia) Hm (Z.to_nat (n - p)) p ltac:(lia) ltac:(lia))
+        as (m & Hm' & _). congruence. }
+  specialize (Hb first eq_refl). set (F := lm_core_start first) in *.
+  pose proof (fd_min_width_acc_le first_alts (-1) Hwf1 ltac:(lia)) as (_ & _ & Hmw).
+  assert (Hmw0 : 0 <= fd_landmark_min_width first_alts)
+    by (unfold fd_landmark_min_width; cbv zeta; destruct (_ <? 0) eqn:E; lia).
+  destruct (fd_rest_landmarks_total rest (F + fd_landmark_min_width first_alts) ltac:(lia)) as (b & Hrest).
+  rewrite Hrest. cbn [bind].
+  (* what a successful attempt from p on looks like while s = p *)
+  assert (Hwit : s = p -> forall x, p <= x <= n -> fd_succeeds x ->
+            exists a s1 c, In a first_alts /\ x <= s1 <= c /\ F <= c /\
+              (forall i, x <= i < s1 -> set_in ls (fd_char i) = true) /\
+              (forall i, s1 <= i < c -> fd_landmark_leading_ws set_in first_alts (fd_char i) = true) /\
+              fd_rest_landmarks text set_in (F + fd_landmark_min_width first_alts) rest = Ok true).
+  { intros -> x Hx Hsx.
+    destruct (HF x ltac:(lia) Hsx) as (a & s1 & c & e & Hin & Hsc & Hloop & Hws & Hm & Hch).
+    exists a, s1, c. split; [exact Hin|]. split; [exact Hsc|].
+    destruct (fd_find_next_complete first_alts a c e Hin ltac:(lia) Hm (Z.to_nat (n - p)) p ltac:(lia) ltac:(lia))
+      as (m & Hm' & Hmb).
+    assert (m = first) by congruence. subst m. fold F in Hmb.
+    split; [lia|]. split; [exact Hloop|]. split.
+    - intros i Hi. unfold fd_landmark_leading_ws. apply existsb_exists. exists a. split; [exact Hin | apply Hws; exact Hi].
+    - pose proof (fd_min_width_le first_alts a c e Hwf1 Hin ltac:(lia) Hm).
+      apply (fd_rest_landmarks_complete rest e); [exact Hwf2 | exact Hch | lia]. }
+  destruct (negb b) eqn:Eb.
+  { apply fd_ok_far; [lia|]. intros x Hx Hsx. destruct Hinv as [Hsp|Hinv]; [|exact (Hinv x Hx Hsx)].
+    destruct (Hwit Hsp x Hx Hsx) as (a & s1 & c & _ & _ & _ & _ & _ & Hall). destruct b; [discriminate | congruence]. }
+  cbv zeta.
+  destruct (F <? p) eqn:EFp; [lia|].
+  destruct (fd_walk_back_spec (fd_landmark_leading_ws set_in first_alts) p (Z.to_nat (F - p)) F ltac:(lia) ltac:(lia))
+    as (W1 & W2 & W3). cbv zeta in W1, W2, W3.
+  set (w1 := fd_walk_back text (Z.to_nat (F - p)) (fd_landmark_leading_ws set_in first_alts) p F) in *.
+  destruct (fd_walk_back_spec (set_in ls) p (Z.to_nat (w1 - p)) w1 ltac:(lia) ltac:(lia)) as (V1 & V2 & V3).
+  cbv zeta in V1, V2, V3.
+  set (cand := fd_walk_back text (Z.to_nat (w1 - p)) (set_in ls) p w1) in *.
+  assert (Hskip : forall x, p <= x -> x < cand -> fd_succeeds x -> False).
+  { intros x Hx1 Hx2 Hsx. destruct Hinv as [Hsp|Hinv]; [|exact (Hinv x ltac:(lia) Hsx)].
+    destruct (Hwit Hsp x ltac:(lia) Hsx) as (a & s1 & c & _ & Hsc & HFc & Hloop & Hws & _).
+    destruct V3 as [V3|V3]; [lia|].
+    (* cand - 1 is not a loop-set rune, so it lies in the whitespace span [s1, c) *)
+    assert (Hs1 : s1 <= cand - 1).
+    { assert (Hc2 : s1 <= cand - 1 \/ cand - 1 < s1) by lia. destruct Hc2 as [Hc2|Hc2]; [exact Hc2|].
+      rewrite Hloop in V3 by lia. discriminate. }
+    destruct W3 as [W3|W3]; [lia|].
+    rewrite Hws in W3 by lia. discriminate. }
+  destruct (fd_has_required_length_at text minreq cand) eqn:Ereq.
+  { apply fd_ok_found; [lia | exact Hskip]. }
+  apply IH; try lia. right.
+  intros q Hq Hsq.
+  assert (Hc : q < cand \/ cand <= q) by lia. destruct Hc as [Hc|Hc]; [exact (Hskip q ltac:(lia) Hc Hsq)|].
+  pose proof (fd_minlen_latest minreq q Hmin ltac:(lia) Hsq). rewrite fd_has_req_unfold in Ereq. lia.
+Qed.
+
+Theorem fd_landmark_chain_sound : forall c ls first_alts rest,
+  lc_loop_set c = Some ls -> lc_landmarks c = first_alts :: rest ->
+  fd_alts_wf first_alts -> fd_chain_wf rest ->
+  fd_chain_fact ls first_alts rest ->
+  fd_sound (fun p => fd_find_landmark_chain text set_in minreq p (Some c)).
+Proof.
+  intros c ls first_alts rest Hls Hlm Hwf1 Hwf2 HF p Hp. unfold fd_find_landmark_chain. rewrite Hls, Hlm.
+  apply fd_chain_loop_ok; try assumption; try lia; try (unfold fd_fuel, zlen in *; lia).
+Qed.
+
 End FinderSound.
+
+(* ====================================================================================
+   findFirstCharOptimized: the dispatch on FindMode
+   ==================================================================================== *)
+Section Dispatch.
+Variable R : Type.
+Variable text : list Z.
+Variable exec : Z -> option R * Z.
+Variable set_in : Z -> Z -> bool.
+Variable lower : Z -> Z.
+
+(* the fact (and the side conditions on the published data) that the mode of [o] relies on *)
+Definition fd_mode_fact (o : fdopts) : Prop :=
+  let m := fo_mode o in
+  if m =? FM_TrailingAnchor_FixedLength_LeftToRight_End then
+    0 <= fo_minreq o /\ fd_trailing_end_fact R text exec (fo_minreq o)
+  else if m =? FM_LeadingString_LeftToRight then
+    fd_prefix_fact R text exec (fd_leading_eqc lower false (fo_prefix o)) (fo_prefix o)
+  else if m =? FM_LeadingString_OrdinalIgnoreCase_LeftToRight then
+    fd_prefix_fact R text exec (fd_leading_eqc lower true (fo_prefix o)) (fo_prefix o)
+  else if m =? FM_LeadingStrings_LeftToRight then
+    fo_prefixes o <> [] /\ Forall (fun P => P <> []) (fo_prefixes o) /\
+    fd_first_runes_ok (fo_prefixes o) (fo_first_runes o) /\
+    fd_prefixes_fact R text exec (fd_strings_eqc lower false) (fo_prefixes o)
+  else if m =? FM_LeadingStrings_OrdinalIgnoreCase_LeftToRight then
+    fo_prefixes o <> [] /\ Forall (fun P => P <> []) (fo_prefixes o) /\
+    fd_prefixes_fact R text exec (fd_strings_eqc lower true) (fo_prefixes o)
+  else if (m =? FM_LeadingSet_LeftToRight) || (m =? FM_FixedDistanceSets_LeftToRight) then
+    exists primary rest id, fo_sets o = primary :: rest /\ fs_set primary = Some id /\
+      0 <= fs_distance primary /\ fd_fds_fact R text exec set_in (fo_sets o)
+  else if m =? FM_FixedDistanceChar_LeftToRight then
+    0 <= fo_fdl_distance o /\ fd_fdchar_fact R text exec (fo_fdl_c o) (fo_fdl_distance o)
+  else if m =? FM_FixedDistanceString_LeftToRight then
+    0 <= fo_fdl_distance o /\ fd_fdstring_fact R text exec (fo_fdl_s o) (fo_fdl_distance o)
+  else if m =? FM_LiteralAfterLoop_LeftToRight then
+    exists l ls, fo_lal o = Some l /\ lal_loop_set l = Some ls /\ fd_lal_fact R text exec lower set_in l ls
+  else if m =? FM_RequiredLandmarkChain_LeftToRight then
+    exists c ls first_alts rest, fo_chain o = Some c /\ lc_loop_set c = Some ls /\
+      lc_landmarks c = first_alts :: rest /\ fd_alts_wf first_alts /\ fd_chain_wf rest /\
+      fd_chain_fact R text exec set_in ls first_alts rest
+  else True.
+
+(* the modes findFirstCharOptimized serves *)
+Definition fd_mode_handled (o : fdopts) : bool :=
+  let m := fo_mode o in
+  (m =? FM_TrailingAnchor_FixedLength_LeftToRight_End) || (m =? FM_LeadingString_LeftToRight)
+  || (m =? FM_LeadingString_OrdinalIgnoreCase_LeftToRight) || (m =? FM_LeadingStrings_LeftToRight)
+  || (m =? FM_LeadingStrings_OrdinalIgnoreCase_LeftToRight) || (m =? FM_LeadingSet_LeftToRight)
+  || (m =? FM_FixedDistanceSets_LeftToRight) || (m =? FM_FixedDistanceChar_LeftToRight)
+  || (m =? FM_FixedDistanceString_LeftToRight) || (m =? FM_LiteralAfterLoop_LeftToRight)
+  || (m =? FM_RequiredLandmarkChain_LeftToRight).
+
+Lemma fd_should_use_handled : forall o, fd_should_use_optimized o = true -> fd_mode_handled o = true.
+Proof.
+  intros o H. unfold fd_should_use_optimized, fd_mode_handled in *. cbv zeta in *.
+  unfold FM_TrailingAnchor_FixedLength_LeftToRight_End, FM_LeadingString_LeftToRight,
+    FM_LeadingString_OrdinalIgnoreCase_LeftToRight, FM_LeadingStrings_LeftToRight,
+    FM_LeadingStrings_OrdinalIgnoreCase_LeftToRight, FM_LeadingSet_LeftToRight, FM_FixedDistanceSets_LeftToRight,
+    FM_FixedDistanceChar_LeftToRight, FM_FixedDistanceString_LeftToRight, FM_LiteralAfterLoop_LeftToRight,
+    FM_RequiredLandmarkChain_LeftToRight in *.
+  destruct (_ || _) eqn:E in H; [lia|].
+  destruct (fo_mode o =? 16) eqn:E16; [lia | discriminate].
+Qed.
+
+(* (found, Runtextpos) of findFirstCharOptimized *)
+Definition fd_optimized_finder (o : fdopts) (p : Z) : res (bool * Z) :=
+  do r <- fd_find_first_char_optimized text set_in lower o p ; Ok (snd (fst r), snd r).
+
+Lemma fd_sound_ext : forall F G, (forall p, F p = G p) -> fd_sound R text exec F -> fd_sound R text exec G.
+Proof. intros F G H HF p Hp. rewrite <- H. apply HF. exact Hp. Qed.
+
+Lemma fd_handled_bind : forall (r : res (bool * Z)),
+  (do x <- (do y <- r ; Ok (true, fst y, snd y)) ; Ok (snd (fst x), snd x)) = r.
+Proof. intros [[f q]| | |]; reflexivity. Qed.
+
+Theorem fd_optimized_sound : forall o,
+  fd_mode_handled o = true -> fd_minlen_fact R text exec (fo_minreq o) -> fd_mode_fact o ->
+  fd_sound R text exec (fd_optimized_finder o) /\
+  (forall p r, fd_find_first_char_optimized text set_in lower o p = Ok r -> fst (fst r) = true).
+Proof.
+  intros o Hh Hmin HF. unfold fd_mode_fact, fd_mode_handled in *. cbv zeta in *.
+  unfold fd_optimized_finder, fd_find_first_char_optimized. cbv zeta.
+  unfold FM_NoSearch, FM_TrailingAnchor_FixedLength_LeftToRight_End, FM_LeadingString_LeftToRight,
+    FM_LeadingString_OrdinalIgnoreCase_LeftToRight, FM_LeadingStrings_LeftToRight,
+    FM_LeadingStrings_OrdinalIgnoreCase_LeftToRight, FM_LeadingSet_LeftToRight, FM_FixedDistanceSets_LeftToRight,
+    FM_FixedDistanceChar_LeftToRight, FM_FixedDistanceString_LeftToRight, FM_LiteralAfterLoop_LeftToRight,
+    FM_RequiredLandmarkChain_LeftToRight in *.
+  assert (Hhandled : forall (F : Z -> res (bool * Z)), fd_sound R text exec F ->
+            fd_sound R text exec (fun p => do r <- (do x <- F p ; Ok (true, fst x, snd x)) ; Ok (snd (fst r), snd r)) /\
+            (forall p r, (do x <- F p ; Ok (true, fst x, snd x)) = Ok r -> fst (fst r) = true)).
+  { intros F HS. split.
+    - apply (fd_sound_ext F); [|exact HS]. intros p. symmetry. apply fd_handled_bind.
+    - intros p r H. destruct (F p) as [[f q]| | |]; inversion H. reflexivity. }
+  destruct (fo_mode o =? 0) eqn:E0; [lia|].
+  destruct (fo_mode o =? 9) eqn:E9.
+  { destruct HF as [H0 HF]. apply Hhandled. apply fd_trailing_end_sound; assumption. }
+  destruct (fo_mode o =? 11) eqn:E11.
+  { apply Hhandled. apply fd_leading_string_sound; assumption. }
+  destruct (fo_mode o =? 13) eqn:E13.
+  { apply Hhandled. apply fd_leading_string_sound; assumption. }
+  destruct (fo_mode o =? 14) eqn:E14.
+  { destruct HF as (H1 & H2 & H3 & H4). apply Hhandled. apply fd_leading_strings_sound; try assumption. intros _. exact H3. }
+  destruct (fo_mode o =? 15) eqn:E15.
+  { destruct HF as (H1 & H2 & H4). apply Hhandled. apply fd_leading_strings_sound; try assumption. discriminate. }
+  destruct ((fo_mode o =? 16) || (fo_mode o =? 21)) eqn:E16.
+  { destruct HF as (primary & rest & id & H1 & H2 & H3 & H4). apply Hhandled.
+    apply (fd_fixed_distance_sets_sound R text exec (fo_minreq o) Hmin set_in (fo_sets o) primary rest id); assumption. }
+  destruct (fo_mode o =? 19) eqn:E19.
+  { destruct HF as [H0 HF]. apply Hhandled. apply fd_fixed_distance_char_sound; assumption. }
+  destruct (fo_mode o =? 20) eqn:E20.
+  { destruct HF as [H0 HF]. apply Hhandled. apply fd_fixed_distance_string_sound; assumption. }
+  destruct (fo_mode o =? 22) eqn:E22.
+  { destruct HF as (l & ls & H1 & H2 & H3). rewrite H1. apply Hhandled.
+    apply (fd_literal_after_loop_sound R text exec lower (fo_minreq o) Hmin set_in l ls); assumption. }
+  destruct (fo_mode o =? 23) eqn:E23.
+  { destruct HF as (c & ls & fa & rest & H1 & H2 & H3 & H4 & H5 & H6). rewrite H1. apply Hhandled.
+    apply (fd_landmark_chain_sound R text exec (fo_minreq o) Hmin set_in c ls fa rest); assumption. }
+  lia.
+Qed.
+
+End Dispatch.
+
+(* ====================================================================================
+   the first-character loop of findFirstCharDefault (both directions) and the whole default finder
+   ==================================================================================== *)
+Section DefaultFinder.
+Variable R : Type.
+Variable text : list Z.
+Variable exec : Z -> option R * Z.
+Variable set_in : Z -> Z -> bool.
+Variable lower : Z -> Z.
+Variable rtl : bool.
+
+Local Notation n := (zlen text).
+Local Notation fd_char i := (nth (Z.to_nat i) text 0).
+
+(* FcPrefix: a successful attempt has a next rune (in scan direction) that passes the test *)
+Definition fd_fc_fact (test : Z -> bool) : Prop :=
+  forall q, 0 <= q <= n -> fd_succeeds R exec q ->
+    if rtl then 0 < q /\ test (fd_char (q - 1)) = true else q < n /\ test (fd_char q) = true.
+
+Definition fd_fc_test (fc : fdfc) : Z -> bool :=
+  match fc_singleton fc with Some ch => fun c => ch =? c | None => set_in (fc_set fc) end.
+
+Lemma fd_fc_loop_spec : forall test i pos,
+  (if rtl then pos = Z.of_nat i else pos + Z.of_nat i = n) -> 0 <= pos <= n ->
+  exists found q, fd_fc_loop text rtl i test pos = Ok (found, q) /\
+    (if rtl then 0 <= q <= pos /\ (forall x, q < x <= pos -> test (fd_char (x - 1)) = false) /\ (found = false -> q = 0)
+     else pos <= q <= n /\ (forall x, pos <= x < q -> test (fd_char x) = false) /\ (found = false -> q = n)).
+Proof.
+  intros test. induction i as [|i IH]; intros pos Hi Hpos; cbn [fd_fc_loop].
+  - exists false, pos. split; [reflexivity|]. destruct rtl; (split; [lia|]); (split; [intros x Hx; lia | intros _; lia]).
+  - destruct rtl eqn:Ertl.
+    + rewrite (fd_rune_at_ok text (pos - 1)) by lia. cbn [bind].
+      destruct (test (fd_char (pos - 1))) eqn:Et.
+      * exists true, pos. split; [reflexivity|]. split; [lia|]. split; [intros x Hx; lia | discriminate].
+      * destruct (IH (pos - 1) ltac:(lia) ltac:(lia)) as (found & q & Hr & H1 & H2 & H3).
+        exists found, q. split; [exact Hr|]. split; [lia|]. split; [|exact H3].
+        intros x Hx. assert (Hc : x = pos \/ x <= pos - 1) by lia. destruct Hc as [->|Hc]; [exact Et | apply H2; lia].
+    + rewrite (fd_rune_at_ok text pos) by lia. cbn [bind].
+      destruct (test (fd_char pos)) eqn:Et.
+      * exists true, pos. split; [reflexivity|]. split; [lia|]. split; [intros x Hx; lia | discriminate].
+      * destruct (IH (pos + 1) ltac:(lia) ltac:(lia)) as (found & q & Hr & H1 & H2 & H3).
+        exists found, q. split; [exact Hr|]. split; [lia|]. split; [|exact H3].
+        intros x Hx. assert (Hc : x = pos \/ pos + 1 <= x) by lia. destruct Hc as [->|Hc]; [exact Et | apply H2; lia].
+Qed.
+
+Theorem fd_first_char_loop_H1 : forall fc,
+  (forall f, fc = Some f -> fd_fc_fact (fd_fc_test f)) ->
+  sc_H1_true R n rtl (fd_total (fd_first_char_loop text set_in rtl fc)) exec /\
+  sc_H1_false R n rtl (fd_total (fd_first_char_loop text set_in rtl fc)) exec.
+Proof.
+  intros fc HF.
+  assert (Hspec : forall p, 0 <= p <= n ->
+            exists found q, fd_first_char_loop text set_in rtl fc p = Ok (found, q) /\
+              sc_ord rtl p q /\ sc_in_text n q /\
+              (forall x, sc_ord rtl p x -> sc_before rtl x q -> sc_fails R exec x) /\
+              (found = false -> forall x, sc_ord rtl p x -> sc_in_text n x -> sc_fails R exec x)).
+  { intros p Hp. unfold fd_first_char_loop. destruct fc as [f|].
+    2:{ exists true, p. split; [reflexivity|]. unfold sc_ord, sc_in_text, sc_before.
+        split; [destruct rtl; lia|]. split; [lia|]. split; [intros x H1 H2; destruct rtl; lia | discriminate]. }
+    specialize (HF f eq_refl). unfold fd_fc_fact in HF. fold (fd_fc_test f). unfold fd_n.
+    destruct (fd_fc_loop_spec (fd_fc_test f) (Z.to_nat (if rtl then p else n - p)) p) as (found & q & Hr & Hq);
+      [destruct rtl; lia | exact Hp |].
+    exists found, q. split; [exact Hr|]. unfold sc_ord, sc_in_text, sc_before.
+    destruct rtl.
+    - destruct Hq as (H1 & H2 & H3). split; [lia|]. split; [lia|]. split.
+      + intros x Hx1 Hx2. apply fd_not_succeeds_fails. intros Hs.
+        destruct (HF x ltac:(lia) Hs) as [Ha Hb]. rewrite H2 in Hb by lia. discriminate.
+      + intros Hf x Hx1 Hx2. apply fd_not_succeeds_fails. intros Hs.
+        destruct (HF x ltac:(lia) Hs) as [Ha Hb]. rewrite H2 in Hb by (specialize (H3 Hf); lia). discriminate.
+    - destruct Hq as (H1 & H2 & H3). split; [lia|]. split; [lia|]. split.
+      + intros x Hx1 Hx2. apply fd_not_succeeds_fails. intros Hs.
+        destruct (HF x ltac:(lia) Hs) as [Ha Hb]. rewrite H2 in Hb by lia. discriminate.
+      + intros Hf x Hx1 Hx2. apply fd_not_succeeds_fails. intros Hs.
+        destruct (HF x ltac:(lia) Hs) as [Ha Hb]. rewrite H2 in Hb by (specialize (H3 Hf); lia). discriminate. }
+  split; intros p q Hp Hfq; unfold sc_in_text in Hp; destruct (Hspec p Hp) as (found & q' & Hr & Ho & Hi & Hskip & Hgive);
+    unfold fd_total in Hfq; rewrite Hr in Hfq; inversion Hfq; subst found q'; (split; [exact Ho|split; [exact Hi|]]).
+  - exact Hskip.
+  - intros x Hx1 Hx2. apply (Hgive eq_refl x Hx1). unfold sc_ord, sc_in_text in *. destruct rtl; lia.
+Qed.
+
+(* findFirstCharDefault below the Boyer-Moore branch (runner.go:1432-1465): the optimized finder when
+   shouldUseFindFirstCharOptimized says so (left-to-right only), the first-character loop otherwise *)
+Theorem fd_ffc_nobm_H1 : forall (o : option fdopts) (fc : option fdfc),
+  (forall o', o = Some o' -> fd_should_use_optimized o' = true ->
+     rtl = false /\ fd_minlen_fact R text exec (fo_minreq o') /\ fd_mode_fact R text exec set_in lower o') ->
+  ((forall o', o = Some o' -> fd_should_use_optimized o' = false) ->
+     forall f, fc = Some f -> fd_fc_fact (fd_fc_test f)) ->
+  sc_H1_true R n rtl (fd_total (fd_ffc_nobm text set_in lower rtl o fc)) exec /\
+  sc_H1_false R n rtl (fd_total (fd_ffc_nobm text set_in lower rtl o fc)) exec.
+Proof.
+  intros o fc Hopt Hfc.
+  assert (Hloop : (forall o', o = Some o' -> fd_should_use_optimized o' = false) ->
+            sc_H1_true R n rtl (fd_total (fd_first_char_loop text set_in rtl fc)) exec /\
+            sc_H1_false R n rtl (fd_total (fd_first_char_loop text set_in rtl fc)) exec).
+  { intros H. apply fd_first_char_loop_H1. exact (Hfc H). }
+  destruct o as [o'|].
+  2:{ apply Hloop. intros o' H. discriminate. }
+  destruct (fd_should_use_optimized o') eqn:Es.
+  2:{ assert (Heq : forall p, fd_total (fd_ffc_nobm text set_in lower rtl (Some o') fc) p
+                              = fd_total (fd_first_char_loop text set_in rtl fc) p).
+      { intros p. unfold fd_total, fd_ffc_nobm. rewrite Es. reflexivity. }
+      destruct (Hloop ltac:(intros o2 H2; inversion H2; subst; exact Es)) as [L1 L2].
+      split; intros p q Hp Hf; rewrite Heq in Hf; [exact (L1 p q Hp Hf) | exact (L2 p q Hp Hf)]. }
+  destruct (Hopt o' eq_refl Es) as (Hrtl & Hmin & Hmf). clear Hfc Hloop Hopt. subst rtl.
+  destruct (fd_optimized_sound R text exec set_in lower o' (fd_should_use_handled o' Es) Hmin Hmf) as [Hsound Hh].
+  destruct (fd_sound_H1 R text exec _ Hsound) as [S1 S2].
+  assert (Heq : forall p, 0 <= p <= n -> fd_total (fd_ffc_nobm text set_in lower false (Some o') fc) p
+                          = fd_total (fd_optimized_finder text set_in lower o') p).
+  { intros p Hp. unfold fd_total, fd_ffc_nobm, fd_optimized_finder. rewrite Es.
+    destruct (Hsound p Hp) as (found & q & Hr & _). unfold fd_optimized_finder in Hr.
+    destruct (fd_find_first_char_optimized text set_in lower o' p) as [[[h f] q']| | |] eqn:E; try discriminate.
+    pose proof (Hh p _ E) as Hht. cbn in Hht. subst h. cbn [bind fst snd]. reflexivity. }
+  split; intros p q Hp Hf; rewrite Heq in Hf by exact Hp; [exact (S1 p q Hp Hf) | exact (S2 p q Hp Hf)].
+Qed.
+
+(* all of findFirstCharDefault (runner.go:1386-1466).  The Boyer-Moore machine is NOT modelled:
+   [bm] / [bm_scan] are its answers, and what is assumed of them is stated here:
+     - IsMatch holds wherever an attempt succeeds (as in C03_default_anchor_jump);
+     - Scan from p returns -1 only when no attempt from p on (in scan order) succeeds, and otherwise a
+       position at-or-beyond p in the text with no successful attempt before it. *)
+Definition fd_bm_scan_fact (scan : Z -> Z) : Prop :=
+  forall p, 0 <= p <= n ->
+    (scan p = -1 /\ forall x, sc_ord rtl p x -> sc_in_text n x -> sc_fails R exec x) \/
+    (scan p <> -1 /\ sc_ord rtl p (scan p) /\ sc_in_text n (scan p) /\
+     forall x, sc_ord rtl p x -> sc_before rtl x (scan p) -> sc_fails R exec x).
+
+Theorem fd_default_H1 : forall (anchors ts : Z) (bm : option (Z -> bool)) (bm_scan : option (Z -> Z))
+                               (o : option fdopts) (fc : option fdfc),
+  let succeeds := fun x => fst (exec x) <> None in
+  (abit anchors ANCH_BEGINNING = true -> forall x, sc_in_text n x -> succeeds x -> x = 0) ->
+  (abit anchors ANCH_START = true -> forall x, sc_in_text n x -> succeeds x -> x = ts) ->
+  (abit anchors ANCH_ENDZ = true -> forall x, sc_in_text n x -> succeeds x ->
+     x = n \/ (x = n - 1 /\ nth (Z.to_nat x) text 0 = 10)) ->
+  (abit anchors ANCH_END = true -> forall x, sc_in_text n x -> succeeds x -> x = n) ->
+  (forall is_match, bm = Some is_match -> forall x, sc_in_text n x -> succeeds x -> is_match x = true) ->
+  (forall scan, bm_scan = Some scan -> fd_bm_scan_fact scan) ->
+  (bm_scan = None ->
+     sc_H1_true R n rtl (fd_total (fd_ffc_nobm text set_in lower rtl o fc)) exec /\
+     sc_H1_false R n rtl (fd_total (fd_ffc_nobm text set_in lower rtl o fc)) exec) ->
+  sc_H1_true R n rtl (fd_total (fd_find_first_char_default text set_in lower rtl anchors ts bm bm_scan o fc)) exec /\
+  sc_H1_false R n rtl (fd_total (fd_find_first_char_default text set_in lower rtl anchors ts bm bm_scan o fc)) exec.
+Proof.
+  intros anchors ts bm bm_scan o fc succeeds Fbeg Fstart Fendz Fend Fbm Fscan Fnobm.
+  set (below := fun p => match bm_scan with
+                         | Some scan => let q := scan p in
+                                        if q =? -1 then Ok (false, if rtl then 0 else fd_n text) else Ok (true, q)
+                         | None => fd_ffc_nobm text set_in lower rtl o fc p
+                         end).
+  assert (Hbelow : sc_H1_true R n rtl (fd_total below) exec /\ sc_H1_false R n rtl (fd_total below) exec).
+  { unfold below. destruct bm_scan as [scan|]; [|exact (Fnobm eq_refl)].
+    specialize (Fscan scan eq_refl).
+    split; intros p q Hp Hf; unfold sc_in_text in Hp; unfold fd_total in Hf; cbv zeta in Hf;
+      destruct (Fscan p Hp) as [[E Hall]|(E & Ho & Hi & Hskip)].
+    - rewrite E in Hf. cbn in Hf. discriminate.
+    - destruct (scan p =? -1) eqn:E1; [lia|]. inversion Hf; subst q. split; [exact Ho|]. split; [exact Hi | exact Hskip].
+    - rewrite E in Hf. cbn [Z.eqb] in Hf. replace (-1 =? -1) with true in Hf by reflexivity.
+      inversion Hf; subst q. unfold sc_ord, sc_in_text, fd_n in *.
+      split; [destruct rtl; lia|]. split; [destruct rtl; pose proof (fd_zlen_nonneg text); lia|].
+      intros x Hx1 Hx2. apply Hall; [exact Hx1 | destruct rtl; lia].
+    - destruct (scan p =? -1) eqn:E1; [lia | discriminate]. }
+  assert (Heq : forall p, fd_total (fd_find_first_char_default text set_in lower rtl anchors ts bm bm_scan o fc) p
+                          = ffc_default text rtl anchors ts bm (fd_total below) p).
+  { intros p. unfold fd_total at 1. unfold fd_find_first_char_default, ffc_default.
+    destruct (abit anchors (ANCH_BEGINNING + ANCH_START + ANCH_ENDZ + ANCH_END)); [reflexivity|].
+    unfold fd_total, below. destruct bm_scan as [scan|]; [|reflexivity].
+    cbv zeta. destruct (scan p =? -1); reflexivity. }
+  destruct Hbelow as [B1 B2].
+  destruct (sc_anchor_H1 R text rtl anchors ts bm (fd_total below) exec Fbeg Fstart Fendz Fend Fbm B1 B2) as [A1 A2].
+  split; intros p q Hp Hf; rewrite Heq in Hf; [exact (A1 p q Hp Hf) | exact (A2 p q Hp Hf)].
+Qed.
+
+End DefaultFinder.
 
 (* ====================================================================================
    leadingPrefixFirstRunes (optimizations.go:593) covers the first rune of every prefix
